@@ -86,3 +86,21 @@ def execute_and_judge(ctx, hists, vttl, name="trace"):
     binp = ctx.build("cvol")
     trace = ctx.drive(binp, ["--script", script], name=name)
     ctx.judge("BlobStoreTrace", trace, "trace_base.cfg", {}, nontrivial=nontrivial, mutate=mutate, label=name)
+
+
+def execute_and_judge_multi(ctx, parts, name="trace"):
+    """parts: [(vttl, hists)] - one script, one driver run, one judge run"""
+    script = os.path.join(ctx.out, name + "-script.ndjson")
+    if ctx.replay:
+        script = ctx.replay
+    else:
+        with open(script, "w") as f:
+            for vttl, hists in parts:
+                for h in hists:
+                    ks = sorted({op["k"] for op in h if "k" in op} | {1})
+                    f.write(json.dumps({"ev": "reset", "vttl": vttl, "keys": ks, "cookies": ["c1", "c2"]}) + "\n")
+                    for op in h:
+                        f.write(json.dumps(op) + "\n")
+    binp = ctx.build("cvol")
+    trace = ctx.drive(binp, ["--script", script], name=name)
+    ctx.judge("BlobStoreTrace", trace, "trace_base.cfg", {}, nontrivial=nontrivial, mutate=mutate, label=name)
